@@ -279,8 +279,8 @@ func (h *HarnessRun) runPath(fn *ssa.Function, prefix []int, sol *Solver) (alts 
 	}
 	h.mu.Unlock()
 	switch status {
-	case "ok", "pruned":
-		if status == "pruned" {
+	case "ok", "pruned", "cut":
+		if status != "ok" {
 			h.mu.Lock()
 			h.pruned++
 			h.mu.Unlock()
